@@ -4,6 +4,9 @@ From Grex Require Import Base.Str Model.Config Model.Cluster Model.Dfa Model.Exp
   Model.Pipeline.
 From Grex Require Import Proofs.Lang Proofs.Spec Proofs.PrintShape Proofs.Construction
   Proofs.PropsGlue.
+From Grex Require Import Engine.Syntax Engine.Parse Engine.Sem Engine.Exec.
+From Grex Require Import Proofs.PrintParseNum Proofs.PrintParseDefs Proofs.PrintParseXTok
+  Proofs.SearchProps Proofs.PropsGlueE2E.
 
 (* non-verbose output: flag, optional ^, body, optional $; all four anchor settings share the
    same body *)
@@ -49,8 +52,182 @@ Theorem C08_verbose_caret : forall isd c e,
               (regexp_str isd c e) = true.
 Proof. exact regexp_str_verbose_flag_caret. Qed.
 
+(* ---------- searching with the pattern (notions: Props/C01.v (f)) ----------
+
+   m lit cls h r i j: the parsed pattern r matches the haystack h from position i to position
+   j (Engine/Sem.v).  A leftmost search (regex `find`) reports some (i, j) with m h r i j where
+   i is the least start admitting a match; which of the ends from i is a matter of priority,
+   which the model does not have.  So "every search result is the whole haystack" is
+     search_whole lit cls h r := forall i j, m h r i j /\ (forall i' j', i' < i -> ~ m h r i' j')
+                                             -> i = 0 /\ j = length h        (SearchProps.v).
+   top_rast c e is the AST that the printed pattern of e parses to (C16_print);
+   proper_prefix p t := exists q, q <> [] /\ t = p ++ q. *)
+
+(* with $: a test case that is matched in full is what every leftmost search reports *)
+Theorem C08_search_with_dollar : forall (lit cls : cp -> cp -> Prop) c (e : expr) (t : str),
+  f_no_end c = false ->
+  m lit cls t (top_rast c e) 0 (length t) ->
+  forall i j, m lit cls t (top_rast c e) i j ->
+    (forall i' j', i' < i -> ~ m lit cls t (top_rast c e) i' j') ->
+    i = 0%nat /\ j = length t.
+Proof. exact search_with_dollar. Qed.
+
+(* with ^: every match at all starts at 0 *)
+Theorem C08_search_with_caret : forall (lit cls : cp -> cp -> Prop) c (e : expr) (t : str) i j,
+  f_no_start c = false -> m lit cls t (top_rast c e) i j -> i = 0%nat.
+Proof. exact search_with_caret. Qed.
+
+(* with both: the only match at all is the whole haystack *)
+Theorem C08_search_with_both : forall (lit cls : cp -> cp -> Prop) c (e : expr) (t : str) i j,
+  f_no_start c = false -> f_no_end c = false ->
+  m lit cls t (top_rast c e) i j -> i = 0%nat /\ j = length t.
+Proof. exact search_with_both. Qed.
+
+(* without $: a test case t in the language of e is what every leftmost search reports,
+   provided no proper prefix of t is in the language *)
+Theorem C08_search_prefix_free : forall (lit cls : cp -> cp -> Prop) c,
+  printable c ->
+  forall gap : Prop, (gap -> forall c0 x, surrogate c0 -> ~ lit c0 x) ->
+  forall (e : expr) (t : str),
+  wf_print_gen gap e -> f_no_end c = true ->
+  L_expr lit cls e t ->
+  (forall p, proper_prefix p t -> ~ L_expr lit cls e p) ->
+  forall i j, m lit cls t (top_rast c e) i j ->
+    (forall i' j', i' < i -> ~ m lit cls t (top_rast c e) i' j') ->
+    i = 0%nat /\ j = length t.
+Proof. exact search_prefix_free. Qed.
+
+(* the known finding K2: a proper prefix p of t in the language gives the possible search
+   result (0, length p), which is not the whole of t *)
+Theorem C08_search_prefix_witness : forall (lit cls : cp -> cp -> Prop) c,
+  printable c ->
+  forall gap : Prop, (gap -> forall c0 x, surrogate c0 -> ~ lit c0 x) ->
+  forall (e : expr) (p t : str),
+  wf_print_gen gap e -> f_no_end c = true ->
+  proper_prefix p t -> L_expr lit cls e p ->
+  m lit cls t (top_rast c e) 0 (length p)
+  /\ (forall i' j', i' < 0 -> ~ m lit cls t (top_rast c e) i' j')
+  /\ (0%nat, length p) <> (0%nat, length t).
+Proof. exact search_prefix_witness. Qed.
+
+(* ... and K2 is exactly that: without $, every search result is the whole test case IF AND
+   ONLY IF no proper prefix of the test case is in the language *)
+Theorem C08_search_prefix_free_iff : forall (lit cls : cp -> cp -> Prop) c,
+  printable c ->
+  forall gap : Prop, (gap -> forall c0 x, surrogate c0 -> ~ lit c0 x) ->
+  forall (e : expr) (t : str),
+  wf_print_gen gap e -> f_no_end c = true -> L_expr lit cls e t ->
+  (search_whole lit cls t (top_rast c e)
+   <-> forall p, proper_prefix p t -> ~ L_expr lit cls e p).
+Proof. exact search_prefix_free_iff. Qed.
+
+(* the same for the string returned by build, as parsed by the model of the regex crate *)
+Theorem C08_build_search : forall (lit cls : cp -> cp -> Prop) isd is_ws c db sc ws s,
+  ws <> [] ->
+  Forall (Forall scalar) ws ->
+  (forall s0, In s0 ws -> Forall scalar (lower' db s0)) ->
+  oracle_ok db (normalise c db ws) ->
+  printable c -> f_verbose c = false -> ws_ok is_ws ->
+  build isd c db sc ws = Some s ->
+  exists e r, Pipeline.final_expr c (grapheme_clusters c db (normalise c db ws)) sc = Some e
+    /\ parse is_ws s = Some (mkF (f_ci c) false, r)
+    /\ (f_no_end c = false ->
+        forall t, L_rast lit cls r t -> search_whole lit cls t r)
+    /\ (f_no_start c = false -> forall t i j, m lit cls t r i j -> i = 0%nat)
+    /\ (f_no_end c = true ->
+        (forall c0 x, surrogate c0 -> ~ lit c0 x) ->
+        forall t, L_expr lit cls e t ->
+          (search_whole lit cls t r
+           <-> forall p, proper_prefix p t -> ~ L_expr lit cls e p)).
+Proof. exact build_search. Qed.
+
+(* ... in either mode: the x flag of the parsed pattern is f_verbose c *)
+Theorem C08_build_search_any : forall (lit cls : cp -> cp -> Prop) isd is_ws c db sc ws s,
+  ws <> [] ->
+  Forall (Forall scalar) ws ->
+  (forall s0, In s0 ws -> Forall scalar (lower' db s0)) ->
+  oracle_ok db (normalise c db ws) ->
+  printable c -> (if f_verbose c then ws_x is_ws else ws_ok is_ws) ->
+  build isd c db sc ws = Some s ->
+  exists e r, Pipeline.final_expr c (grapheme_clusters c db (normalise c db ws)) sc = Some e
+    /\ parse is_ws s = Some (mkF (f_ci c) (f_verbose c), r)
+    /\ (f_no_end c = false ->
+        forall t, L_rast lit cls r t -> search_whole lit cls t r)
+    /\ (f_no_start c = false -> forall t i j, m lit cls t r i j -> i = 0%nat)
+    /\ (f_no_end c = true ->
+        (forall c0 x, surrogate c0 -> ~ lit c0 x) ->
+        forall t, L_expr lit cls e t ->
+          (search_whole lit cls t r
+           <-> forall p, proper_prefix p t -> ~ L_expr lit cls e p)).
+Proof. exact build_search_any. Qed.
+
+(* executable form, for the extracted matcher (Engine/Exec.v) instantiated with any decision
+   procedures for the denotations: the search returns start 0 and the single end length t *)
+Theorem C08_find_leftmost_with_dollar :
+  forall (lit cls : cp -> cp -> Prop) (lit_b cls_b : cp -> cp -> bool)
+         (range_b : cp -> cp -> cp -> bool),
+  (forall c x, lit_b c x = true <-> lit c x) ->
+  (forall l x, cls_b l x = true <-> cls l x) ->
+  (forall lo hi x,
+     range_b lo hi x = true <-> exists c, (lo <= c)%N /\ (c <= hi)%N /\ lit c x) ->
+  forall c (e : expr) (t : str),
+  f_no_end c = false ->
+  matches_whole lit_b cls_b range_b t (top_rast c e) = true ->
+  find_leftmost lit_b cls_b range_b t (top_rast c e) = Some (0%nat, [length t]).
+Proof. exact find_leftmost_with_dollar. Qed.
+
+Theorem C08_find_leftmost_prefix_free :
+  forall (lit cls : cp -> cp -> Prop) (lit_b cls_b : cp -> cp -> bool)
+         (range_b : cp -> cp -> cp -> bool),
+  (forall c x, lit_b c x = true <-> lit c x) ->
+  (forall l x, cls_b l x = true <-> cls l x) ->
+  (forall lo hi x,
+     range_b lo hi x = true <-> exists c, (lo <= c)%N /\ (c <= hi)%N /\ lit c x) ->
+  forall c (gap : Prop) (e : expr) (t : str),
+  printable c -> (gap -> forall c0 x, surrogate c0 -> ~ lit c0 x) ->
+  wf_print_gen gap e -> f_no_end c = true ->
+  L_expr lit cls e t ->
+  (forall p, proper_prefix p t -> ~ L_expr lit cls e p) ->
+  find_leftmost lit_b cls_b range_b t (top_rast c e) = Some (0%nat, [length t]).
+Proof. exact find_leftmost_prefix_free. Qed.
+
+(* the anchors in the parsed output: ^ occurs iff not disabled, and then as the first atom of
+   the top-level concatenation; $ occurs iff not disabled, and then as the last one; nowhere
+   else (rast_sub x r: x occurs in r, Proofs/PropsGlueE2E.v; rcat: left-nested RCat) *)
+Theorem C08_anchors_ast : forall isd is_ws c db sc ws s,
+  ws <> [] ->
+  Forall (Forall scalar) ws ->
+  (forall s0, In s0 ws -> Forall scalar (lower' db s0)) ->
+  oracle_ok db (normalise c db ws) ->
+  printable c -> (if f_verbose c then ws_x is_ws else ws_ok is_ws) ->
+  build isd c db sc ws = Some s ->
+  exists r, parse is_ws s = Some (mkF (f_ci c) (f_verbose c), r)
+    /\ (rast_sub RStart r <-> f_no_start c = false)
+    /\ (rast_sub REnd r <-> f_no_end c = false)
+    /\ exists atoms,
+         r = rcat ((if f_no_start c then [] else [RStart]) ++ atoms
+                   ++ (if f_no_end c then [] else [REnd]))
+         /\ Forall (fun a => ~ rast_sub RStart a /\ ~ rast_sub REnd a) atoms.
+Proof.
+  intros isd is_ws c db sc ws s Hne Hsc Hlow Hok Hp Hws H.
+  destruct (build_shape_any isd is_ws c db sc ws s Hne Hsc Hlow Hok Hp Hws H)
+    as (r & Hr & _ & _ & Hs & He & Ha).
+  exists r. split; [exact Hr|]. split; [exact Hs|]. split; [exact He|exact Ha].
+Qed.
+
 Print Assumptions C08_anchors_syntax.
 Print Assumptions C08_body_invariant.
 Print Assumptions C08_language_invariant.
 Print Assumptions C08_no_anchors_exact.
 Print Assumptions C08_verbose_caret.
+Print Assumptions C08_search_with_dollar.
+Print Assumptions C08_search_with_caret.
+Print Assumptions C08_search_with_both.
+Print Assumptions C08_search_prefix_free.
+Print Assumptions C08_search_prefix_witness.
+Print Assumptions C08_search_prefix_free_iff.
+Print Assumptions C08_build_search.
+Print Assumptions C08_build_search_any.
+Print Assumptions C08_find_leftmost_with_dollar.
+Print Assumptions C08_find_leftmost_prefix_free.
+Print Assumptions C08_anchors_ast.
